@@ -1,4 +1,5 @@
 mod abiops;
+mod enc;
 mod gen;
 mod rng;
 mod world;
